@@ -121,6 +121,7 @@ PROPS["C04"] = dict(
         J("TestC04_Homomorphism", 300, 8000, shards=12),
         J("TestC04_NonG1", 300, 8000, shards=3),
         J("TestC04_Errors", 200, 8000, shards=1),
+        J("TestC04_LargeLists", 12, 120, shards=2),
     ],
 )
 
@@ -215,6 +216,7 @@ PROPS["C15"] = dict(
                  "SubPermutation's unused slice capacity is read only to tell draws apart during probing"],
     jobs=[
         J("TestC15_Public", 600, 60000, shards=4),
+        J("TestC15_Frequencies", 30, 600, shards=2),
         J("TestVerifC15_UintN", 4096, 65536, shards=16, kind="c15"),
         J("TestVerifC15_Perm", 7, 9, shards=4, kind="c15"),
         J("TestVerifC15_Deep", 128, 1024, shards=4, kind="c15"),
